@@ -141,7 +141,8 @@ NOT_YET_PROVED = [
     "fingerprint matching is not modelled (single table assumed)",
     "row order of the CSV (pandas stable sort) is modelled and compared but no theorem is stated about it",
 ]
-LEVEL_TEXT = ("Lean theorems over an executable model of compute_utilization / make_utilization_event / "
+LEVEL_TEXT = ("The compiler-log parser is modelled character by character (LogParse) and linked to the tables of the utilization model (single_table_parse, rows_from_empty, rowOf_written*). "
+              "Lean theorems over an executable model of compute_utilization / make_utilization_event / "
               "accumulate_categories / print_table_as_pd and the counter rule of calculate_stats, for all parsed log "
               "tables, kernel sequences and core frequencies > 0: pt_active = min(1, cycles/core/dur) exactly for "
               "kernels whose first non-zero listing has those cycles and absent otherwise; the counter pair; every "
